@@ -4,5 +4,7 @@ CONSTANTS
   InitUp = 2
   MaxFaults = 4
   FaultKinds = {"add", "remove", "unlist", "stop", "start", "restart", "droppooled", "dropctrl", "dropall", "mute"}
-INVARIANTS SomeoneServes ExpectedExcludesUnlisted ExportInv
+  TimerStoppedOnClose = FALSE
+INVARIANTS SomeoneServes ExpectedExcludesUnlisted QuiescentConverged ExportInv
+PROPERTY Settles
 CHECK_DEADLOCK FALSE
